@@ -329,6 +329,20 @@ func (s *Session) RunCheck(ps *PropSpec, opts CheckOpts) int {
 		}
 		viols = append(viols, viol{Name: shortObl(sm.Name), Reason: "obligation not discharged (" + sm.Status + ")", Failed: sm.Failed})
 	}
+	// (thorough tier) solvers of different families must not contradict each other
+	nConfirmed, nUnconfirmed := 0, 0
+	for _, r := range results {
+		for _, o := range r.Obligations {
+			switch {
+			case o.Status == "disagree":
+				engineProblems = append(engineProblems, "solvers disagree on "+shortObl(o.FullName())+" ("+o.Solver+"): "+o.File)
+			case o.Cross == "confirmed":
+				nConfirmed++
+			case o.Cross == "unconfirmed":
+				nUnconfirmed++
+			}
+		}
+	}
 	// 2. functions that could not be processed
 	for _, r := range results {
 		if r.Error != "" {
@@ -476,30 +490,31 @@ func (s *Session) RunCheck(ps *PropSpec, opts CheckOpts) int {
 		trustedBase = append(trustedBase, "unmodelled callee, result havocked (assumed not to panic): "+l)
 	}
 	cov := map[string]interface{}{
-		"obligations":                  nObl,
-		"discharged":                   nDis,
-		"query_instances":              nInst,
-		"checker_cmd":                  fmt.Sprintf("/verif/check %s %s", ps.ID, opts.Tier),
-		"trusted_base":                 trustedBase,
-		"samples":                      samples,
-		"functions":                    fnInfo,
-		"obligation_classes":           classes,
-		"discharged_by":                solverCount,
-		"solver_time_s":                round2(solverTime),
-		"generation_time_s":            round2(genTime),
-		"load_time_s":                  round2(s.LoadTime),
-		"inlined_functions":            sortedSet(inlined),
-		"not_decided":                  ps.NotDecided,
-		"bounded_parts":                ps.Bounded,
-		"explanation":                  ps.Explanation,
-		"contract_files":               s.ContractFiles,
-		"per_obligation_timeout_s":     s.TimeoutS,
-		"scope":                        ps.Scope,
-		"out_of_scope_query_instances": outOfScope,
-		"pinned_clauses":               len(ps.Pinned),
-		"thorough_only_functions":      ps.ThoroughFunctions,
-		"slow_obligations":             slowList(sums, float64(s.TimeoutS)*0.4),
-		"slowest_obligations":          slowest(sums, 5),
+		"obligations":                    nObl,
+		"discharged":                     nDis,
+		"query_instances":                nInst,
+		"checker_cmd":                    fmt.Sprintf("/verif/check %s %s", ps.ID, opts.Tier),
+		"trusted_base":                   trustedBase,
+		"samples":                        samples,
+		"functions":                      fnInfo,
+		"obligation_classes":             classes,
+		"discharged_by":                  solverCount,
+		"solver_time_s":                  round2(solverTime),
+		"generation_time_s":              round2(genTime),
+		"load_time_s":                    round2(s.LoadTime),
+		"inlined_functions":              sortedSet(inlined),
+		"not_decided":                    ps.NotDecided,
+		"bounded_parts":                  ps.Bounded,
+		"explanation":                    ps.Explanation,
+		"contract_files":                 s.ContractFiles,
+		"per_obligation_timeout_s":       s.TimeoutS,
+		"scope":                          ps.Scope,
+		"out_of_scope_query_instances":   outOfScope,
+		"pinned_clauses":                 len(ps.Pinned),
+		"thorough_only_functions":        ps.ThoroughFunctions,
+		"slow_obligations":               slowList(sums, float64(s.TimeoutS)*0.4),
+		"slowest_obligations":            slowest(sums, 5),
+		"cross_checked_by_second_solver": map[string]int{"confirmed": nConfirmed, "first_solver_only": nUnconfirmed},
 		"discharged_only_under_known_finding_exclusion": nKnown,
 		"sweep_packages":            ps.Sweep,
 		"sweep_not_covered":         ps.SweepExclude,
